@@ -205,6 +205,8 @@ pub async fn scenario(line: &str) -> String {
     "churn" => churn(&p).await,
     "fanin" => fanin(&p).await,
     "peerclose" => peerclose(&p).await,
+    "bystander" => bystander(&p).await,
+    "subhist" => subhist(&p).await,
     "chanleak" => chanleak(&p).await,
     "rchurn" => rchurn(&p).await,
     "cancel" => cancel_scn(&p).await,
@@ -2604,6 +2606,153 @@ async fn chanleak(p: &[&str]) -> String {
       timed_out, cap, drained
     ),
   }
+}
+
+/// `bystander <tcp|ipc> <what the bystander does> <reconnect ivl ms>`
+/// A PUSH socket connects to an endpoint where nobody listens yet (its connecter retries). Meanwhile ANOTHER socket of the
+/// same context does something unrelated: `close` (is closed), `connectfail` (connects to a dead port of its own),
+/// `bindclose` (binds, then closes), `none`. Then a PULL binds the endpoint: the PUSH must reach it and deliver.
+async fn bystander(p: &[&str]) -> String {
+  let transport = p[1];
+  let what = p[2];
+  let ivl: i32 = p[3].parse().unwrap();
+  let ctx = Context::new().expect("ctx");
+  let ep = if transport == "tcp" {
+    // a port that is free now and stays free until the late peer binds it
+    let l = std::net::TcpListener::bind("127.0.0.1:0").unwrap();
+    let a = l.local_addr().unwrap();
+    drop(l);
+    format!("tcp://{}", a)
+  } else {
+    format!("ipc:///tmp/{}.sock", unique_name("rzmq-verif-by"))
+  };
+  let push = ctx.socket(SocketType::Push).unwrap();
+  let _ = set_i32(&push, o::RECONNECT_IVL, ivl).await;
+  let _ = set_i32(&push, o::RECONNECT_IVL_MAX, ivl).await;
+  let _ = set_i32(&push, o::SNDTIMEO, 100).await;
+  if push.connect(&ep).await.is_err() {
+    return "setup-error connect".into();
+  }
+  tokio::time::sleep(Duration::from_millis(ivl as u64 / 2 + 30)).await; // the connecter is in its back-off now
+  let other = ctx.socket(SocketType::Req).unwrap();
+  match what {
+    "close" => {
+      let _ = tokio::time::timeout(Duration::from_secs(3), other.close()).await;
+    }
+    "connectfail" => {
+      let _ = set_i32(&other, o::RECONNECT_IVL, 20).await;
+      let _ = other.connect("tcp://127.0.0.1:1").await;
+      tokio::time::sleep(Duration::from_millis(60)).await;
+      let _ = tokio::time::timeout(Duration::from_secs(3), other.close()).await;
+    }
+    "bindclose" => {
+      let _ = other.bind("tcp://127.0.0.1:0").await;
+      let _ = tokio::time::timeout(Duration::from_secs(3), other.close()).await;
+    }
+    _ => {}
+  }
+  tokio::time::sleep(Duration::from_millis(30)).await;
+  let pull = ctx.socket(SocketType::Pull).unwrap();
+  let _ = set_i32(&pull, o::RCVTIMEO, 200).await;
+  if pull.bind(&ep).await.is_err() {
+    return "setup-error late-bind".into();
+  }
+  // the PUSH keeps trying to send; within a few retry intervals a message must arrive
+  let deadline = Instant::now() + Duration::from_millis(6 * ivl as u64 + 2500);
+  let mut arrived = false;
+  while Instant::now() < deadline && !arrived {
+    let _ = push.send(Msg::from_static(b"late")).await;
+    if pull.recv().await.is_ok() {
+      arrived = true;
+    }
+  }
+  let _ = tokio::time::timeout(Duration::from_secs(3), push.close()).await;
+  let _ = tokio::time::timeout(Duration::from_secs(3), pull.close()).await;
+  let _ = tokio::time::timeout(Duration::from_secs(12), ctx.term()).await;
+  if arrived {
+    "bystander=ok".into()
+  } else {
+    format!(
+      "ORACLE-FAIL key=retry-stopped-by-bystander after another socket of the context did `{}`, the connection to a peer that came up late was never made (RECONNECT_IVL {} ms, waited {} ms)",
+      what,
+      ivl,
+      6 * ivl as u64 + 2500
+    )
+  }
+}
+
+/// `subhist <tcp|inproc> <history> <probe topics>`
+/// A SUB socket is connected to a PUB socket and goes through a history of `+topic` / `-topic` (subscribe / unsubscribe,
+/// `;`-separated, topics as hex, empty = the empty prefix). Then every probe topic (hex, `;`-separated) is published once,
+/// followed by a sentinel every history subscribes to at the end. Reported: which probes arrived (`got=<indices>`).
+async fn subhist(p: &[&str]) -> String {
+  let transport = p[1];
+  let history: Vec<String> = p[2].split(';').filter(|x| !x.is_empty()).map(|x| x.to_string()).collect();
+  let probes: Vec<Vec<u8>> = p[3].split(';').map(|h| hex::decode(h.trim_start_matches('h')).unwrap_or_default()).collect();
+  let ctx = Context::new().expect("ctx");
+  let publ = ctx.socket(SocketType::Pub).unwrap();
+  let sub = ctx.socket(SocketType::Sub).unwrap();
+  let _ = set_i32(&sub, o::RCVTIMEO, 1500).await;
+  let ep = if transport == "tcp" { "tcp://127.0.0.1:0".to_string() } else { format!("inproc://{}", unique_name("subhist")) };
+  if publ.bind(&ep).await.is_err() {
+    return "setup-error bind".into();
+  }
+  let target = if transport == "tcp" { last_endpoint(&publ).await } else { ep.clone() };
+  // half of the history before the connection exists, the rest on the live connection
+  let half = history.len() / 2;
+  let apply = |h: String| {
+    let sub = sub.clone();
+    async move {
+      let (sign, hexs) = h.split_at(1);
+      let topic = hex::decode(hexs).unwrap_or_default();
+      let opt = if sign == "+" { o::SUBSCRIBE } else { o::UNSUBSCRIBE };
+      let _ = sub.set_option_raw(opt, &topic).await;
+    }
+  };
+  for h in history.iter().take(half) {
+    apply(h.clone()).await;
+  }
+  if sub.connect(&target).await.is_err() {
+    return "setup-error connect".into();
+  }
+  tokio::time::sleep(Duration::from_millis(150)).await;
+  for h in history.iter().skip(half) {
+    apply(h.clone()).await;
+  }
+  let sentinel = b"\xfe\xfdsentinel".to_vec();
+  let _ = sub.set_option_raw(o::SUBSCRIBE, &sentinel).await;
+  tokio::time::sleep(Duration::from_millis(200)).await;
+  for (i, t) in probes.iter().enumerate() {
+    let mut body = t.clone();
+    body.push(0xFC);
+    body.push(i as u8);
+    let _ = publ.send(Msg::from_vec(body)).await;
+  }
+  let _ = publ.send(Msg::from_vec(sentinel.clone())).await;
+  let mut got: Vec<usize> = Vec::new();
+  loop {
+    match sub.recv().await {
+      Ok(m) => {
+        let d = m.data().unwrap_or(&[]).to_vec();
+        if d == sentinel {
+          break;
+        }
+        if d.len() >= 2 && d[d.len() - 2] == 0xFC {
+          got.push(d[d.len() - 1] as usize);
+        }
+      }
+      Err(_) => {
+        let _ = tokio::time::timeout(Duration::from_secs(3), sub.close()).await;
+        let _ = tokio::time::timeout(Duration::from_secs(3), publ.close()).await;
+        let _ = tokio::time::timeout(Duration::from_secs(12), ctx.term()).await;
+        return format!("ORACLE-FAIL key=subhist-sentinel the sentinel never arrived (got so far {:?})", got);
+      }
+    }
+  }
+  let _ = tokio::time::timeout(Duration::from_secs(3), sub.close()).await;
+  let _ = tokio::time::timeout(Duration::from_secs(3), publ.close()).await;
+  let _ = tokio::time::timeout(Duration::from_secs(12), ctx.term()).await;
+  format!("got={}", got.iter().map(|x| x.to_string()).collect::<Vec<_>>().join(","))
 }
 
 /// `peerclose <options of the socket that closes> <options of the other socket>`
